@@ -37,16 +37,18 @@ SetOf(s) == {s[i] : i \in 1..Len(s)}
 \* the case is one the property quantifies over: a well-formed and/or expression over the gene
 \* alphabet, and the token sequence really is a spelling of the tree
 InScope(c) ==
+  LET p == ParseShape(c.toks) IN
   /\ GenesOf(c.tree) \subseteq Genes
-  /\ WellFormed(c.toks)
-  /\ TTSeq(ParseShape(c.toks)) = TTSeq(c.tree)
-  /\ GenesOf(ParseShape(c.toks)) = GenesOf(c.tree)
+  /\ p.k # "error"
+  /\ TTSeq(p) = TTSeq(c.tree)
+  /\ GenesOf(p) = GenesOf(c.tree)
 
 \* a returned text denotes the function tt and mentions exactly the genes gs
 TextIs(toks, tt, gs) ==
-  /\ WellFormed(toks)
-  /\ TTSeq(ParseShape(toks)) = tt
-  /\ GenesOf(ParseShape(toks)) = gs
+  LET p == ParseShape(toks) IN
+  /\ p.k # "error"
+  /\ TTSeq(p) = tt
+  /\ GenesOf(p) = gs
 
 If(c, name) == IF c THEN {name} ELSE {}
 
@@ -61,7 +63,9 @@ FieldsDerived(c, ev) ==
   IF o.raises # "none" THEN {"raises"}
   ELSE If(o.tt # tt, "tt") \cup If(SetOf(o.genes) # gs, "genes")
        \cup If(~TextIs(o.toks, tt, gs), "to_string")
-       \cup If(o.eq # "T", "eq") \cup If(o.eq2 # "T", "eq_rev")
+       \* derived == original in the direction that was called ("na": not called)
+       \cup If(o.eq \notin {"T", "na"}, "eq") \cup If(o.eq2 \notin {"T", "na"}, "eq_rev")
+       \cup If(o.eq = "na" /\ o.eq2 = "na", "eq_missing")
 
 FieldsEq(c, ev) ==
   LET o == ev.obs differ == TTSeq(c.tree) # TTSeq(ev.tree2) IN
@@ -71,15 +75,15 @@ FieldsEq(c, ev) ==
 
 KOf(ev) == SetOf(ev.K)
 FieldsRemove(c, ev) ==
-  LET o == ev.obs K == KOf(ev) catal == Eval(c.tree, K) IN
+  LET o == ev.obs K == KOf(ev) catal == Eval(c.tree, K) p == ParseShape(o.toks) IN
   IF o.raises # "none" THEN {"raises"}
   ELSE If(catal /\ ~o.present, "rm_present")
        \cup (IF ~o.present THEN {}
              ELSE If(catal /\ o.tt # TTSeq(Rm(c.tree, K)), "rm_tt")
                   \* the text form of the new rule is faithful to what it evaluates to ...
-                  \cup If(~WellFormed(o.toks) \/ TTSeq(ParseShape(o.toks)) # o.tt, "rm_text")
+                  \cup If(p.k = "error" \/ TTSeq(p) # o.tt, "rm_text")
                   \* ... and the rule reports exactly the genes occurring in it
-                  \cup If(WellFormed(o.toks) /\ SetOf(o.genes) # GenesOf(ParseShape(o.toks)), "rm_genes"))
+                  \cup If(p.k # "error" /\ SetOf(o.genes) # GenesOf(p), "rm_genes"))
 
 Fields(c, ev) ==
   CASE ev.kind = "parse" -> FieldsParse(c, ev)
